@@ -43,6 +43,8 @@ THEOREMS = [
     "IrVerif.Writer.C09_schedule_bounded",
     "IrVerif.Writer.C09_maximal_terminal",
     "IrVerif.Writer.C09_bytes_serial",
+    "IrVerif.Writer.C09_bytes_serial_wb",
+    "IrVerif.Writer.preallocb_sound",
     "IrVerif.Writer.C09_error_quiescent",
     "IrVerif.Writer.wfb_sound",
     "IrVerif.Writer.layoutb_sound",
@@ -56,6 +58,9 @@ THEOREMS = [
     "IrVerif.WriterN.C09_maximal_terminal",
     "IrVerif.WriterN.C09_error_quiescent",
     "IrVerif.WriterN.C09_bytes_serial",
+    "IrVerif.WriterN.C09_bytes_serial_wb",
+    "IrVerif.WriterN.C09_error_reported",
+    "IrVerif.WriterN.preallocb_sound",
     "IrVerif.WriterN.layoutb_sound",
     "IrVerif.WriterN.wfb_sound",
 ]
@@ -625,13 +630,33 @@ def case_sizes(case):
     return [case["objs"][t["obj"]]["size"] for t in case["tensors"]]
 
 
+def case_align(case):
+    """(alignment, align_threshold) of a case; alignment None = dense packing."""
+    return case.get("align"), case.get("athr", 1 << 20)
+
+
+def layout_offsets(case, idxs):
+    """Offsets of the tensors `idxs` within one file, from the real `_align_offset` (C07's subject)."""
+    from onnx_ir import external_data as ed
+
+    sizes = case_sizes(case)
+    al, thr = case_align(case)
+    offs, cur = [], 0
+    for i in idxs:
+        off = ed._align_offset(cur, sizes[i], al, thr)
+        offs.append(off)
+        cur = off + sizes[i]
+    return offs, max([o + sizes[i] for o, i in zip(offs, idxs)], default=0)
+
+
 def shards_of(case):
     """Shard assignment (lists of tensor indices), taken from the real `_shard_tensors` (C07's subject)."""
     from onnx_ir import external_data as ed
 
     st_ref = [None]
     tensors = build_tensors(case, st_ref)
-    groups = ed._shard_tensors(tensors, case["shard"], None, 1 << 20)
+    al, thr = case_align(case)
+    groups = ed._shard_tensors(tensors, case["shard"], al, thr)
     out, k = [], 0
     for g in groups:
         out.append(list(range(k, k + len(g))))
@@ -757,8 +782,8 @@ def call_writer(case, tensors, cb, base_dir, workers):
         callback=cb,
         max_workers=workers,
         max_in_flight_bytes=case["cap"],
-        alignment=None,
-        align_threshold=1 << 20,
+        alignment=case_align(case)[0],
+        align_threshold=case_align(case)[1],
     )
 
 
